@@ -158,6 +158,8 @@ func runC03(c *Ctx) {
 	// shared rule: history/tree scanners stop only at the end of their input (rules_c05.go)
 	scannerVerdictRule(c, "R9")
 	c03PushRemote(c)
+	transferRelRule(c, "R12")
+	c03TusResume(c, "R13")
 	up := p.Fn("commands", "(*uploadContext).UploadPointers")
 	prep := p.Fn("commands", "(*uploadContext).prepareUpload")
 	if up == nil || prep == nil {
